@@ -231,10 +231,26 @@ class MinimizerBase(object):
                 self.release(parameter_name)
             return self.function_value - target_cost
 
+        _par_min = min_parameters[self.parameter_names.index(parameter_name)]
+        # Bracket the nearest crossing by stepping away from the minimum, then bisect.
+        # A secant search can run away from the minimum and return a far-off (or no) crossing.
+        _step = guess - _par_min
+        if _step != 0 and np.isfinite(_step):
+            _inner, _outer = _par_min, guess
+            for _ in range(20):
+                _profile_outer = _profile(_outer)
+                if not np.isfinite(_profile_outer):
+                    break
+                if _profile_outer >= 0:
+                    if _profile_outer == 0:
+                        return _outer
+                    return root_scalar(f=_profile, bracket=(_inner, _outer), xtol=self.tolerance, method="brentq").root
+                _step *= 2
+                _inner, _outer = _outer, _outer + _step
         return root_scalar(
             f=_profile,
             x0=guess,
-            x1=min_parameters[self.parameter_names.index(parameter_name)],
+            x1=_par_min,
             xtol=self.tolerance,
             method="secant",
         ).root
